@@ -323,6 +323,8 @@ class RefSem:
                     raise EvalFault("stringToInt(%r)" % args[0])
             if n.fn == "intToFloat":
                 return float(args[0])
+            if n.fn == "bindConstants":
+                return [{"item": it, "constant": args[1]} for it in args[0]]
             raise EvalFault("function %s not modelled" % n.fn)
         raise TypeError(n)
 
@@ -702,6 +704,15 @@ def _norm_type(schema, t, v, path):
         if t[1].get("max") is not None and len(x) > t[1]["max"]:
             raise InvalidInput("%s: too long" % path)
         return x
+    if t[0] == "pattern":
+        import re as _re
+        if not isinstance(v, str):
+            raise InvalidInput("%s: pattern must be a string" % path)
+        try:
+            _re.compile(v)
+        except _re.error:
+            raise InvalidInput("%s: invalid pattern" % path)
+        return v
     if t[0] == "enum":
         if not isinstance(v, str) or v not in t[1]:
             raise InvalidInput("%s: %r not in enum" % (path, v))
